@@ -76,6 +76,12 @@ impl WrappedRead {
     { unimplemented!() }
 }
 impl WrappedWrite {
+/*@fn file=src/command/writes.rs impl="impl WrappedWrite" name=ignore_wkc canary=0
+    ensures r.command == self.command, r.wkc is None, r.len_override == self.len_override
+@*/
+/*@fn file=src/command/writes.rs impl="impl WrappedWrite" name=with_wkc canary=0
+    ensures r.command == self.command, r.wkc == Some(wkc), r.len_override == self.len_override
+@*/
     #[verifier::external_body]
     pub async fn send(self, maindevice: &MainDevice, data: &Fmmu) -> (r: Result<(), Error>)
         ensures r is Ok ==> exists|a: u16, g: u16| self.command == (Writes::Fpwr { address: a, register: g }) && wrote_fmmu(a, g, *data)
@@ -108,6 +114,8 @@ impl WrappedWrite {
     /// checked write-and-read-back (contract proved in unit `wrapped`: Ok => the counter matched)
     #[verifier::external_body]
     pub async fn send_receive<T: EtherCrabWireRead>(self, maindevice: &MainDevice, value: AlControl) -> (r: Result<AlControl, Error>)
+        // C10/C11: the state request is a CHECKED exchange - exactly one device must have taken it
+        requires self.wkc == Some(1u16)
         ensures r is Ok ==> al_exchange(self.command, value, r->Ok_0)
     { unimplemented!() }
 }
@@ -138,7 +146,7 @@ pub struct SubDeviceRef<'a> { pub maindevice: &'a MainDevice, pub configured_add
 
 impl<'a> SubDeviceRef<'a> {
 /*@fn file=src/subdevice/mod.rs impl="impl<'maindevice, S> SubDeviceRef<'maindevice, S>" name=write subst="impl Into<u16>=>RegisterAddress" props=C08
-    ensures r.command == (Writes::Fpwr { address: self.configured_address, register: register as u16 })
+    ensures r.command == (Writes::Fpwr { address: self.configured_address, register: register as u16 }), r.wkc == Some(1u16)
 @*/
 /*@fn file=src/subdevice/mod.rs impl="impl<'maindevice, S> SubDeviceRef<'maindevice, S>" name=read subst="impl Into<u16>=>RegisterAddress" props=C08
     ensures r.command == (Reads::Fprd { address: self.configured_address, register: register as u16 })
